@@ -6,6 +6,7 @@ import ast
 
 from sa import twins
 from sa.cfg import CFG
+from sa.util import guarded_by_test
 from sa.report import AnalysisError
 from sa.report import Result
 from sa.report import norm
@@ -147,6 +148,35 @@ def run(prog: Program, res: Result) -> None:
     else:
         res.fail("C14.R1", file=rel, line=ck.node.lineno, qualname="CachingLoaderMixin.cache_key", construct=f"lookup order {order}", message="namespace lookup order changed: a context global can override the explicit loader argument", what=what)
 
+    # R1b: the key is an injective function of (namespace, name)
+    res.rule("C14.R1b", "cache_key composes the namespace and the template name injectively (a tuple, or the name alone when there is no namespace): joining two free-form strings with a separator makes ('a', 'b/c') and ('a/b', 'c') - and the bare name 'a/b/c' - the same key")
+    n_ck = 0
+    for r_ in ast.walk(ck.node):
+        if not isinstance(r_, ast.Return) or r_.value is None:
+            continue
+        n_ck += 1
+        v = r_.value
+        what = f"`{norm(r_, 60)}` is an unambiguous key"
+        parts = [x for x in v.values if isinstance(x, ast.FormattedValue)] if isinstance(v, ast.JoinedStr) else []
+        concat = isinstance(v, ast.BinOp) and isinstance(v.op, (ast.Add, ast.Mod))
+        if len(parts) >= 2 or concat:
+            res.fail("C14.R1b", file=rel, line=r_.lineno, qualname="CachingLoaderMixin.cache_key", construct=f"cache_key returns {norm(v, 50)}", message=f"`{norm(v, 50)}` joins the namespace and the name into one string: different (namespace, name) pairs - and plain names containing the separator - collide, so a template loaded for one namespace is served to another", what=what)
+        else:
+            res.ok("C14.R1b", f"{rel}:{r_.lineno} CachingLoaderMixin.cache_key", what, "single component / tuple")
+    res.floor("C14.R1b", "returns of cache_key", n_ck, 3)
+
+    # R2b: a hit hands out the shared object itself and re-labels it for the current caller
+    res.rule("C14.R2b", "a cache hit does not change the object other callers still hold: no attribute of the cached template is assigned on a hit (each caller's globals would have to live in a per-call copy)")
+    for fname in ("_check_cache", "_check_cache_async"):
+        f = mixin.methods[fname]
+        cached_names = {t.id for n in ast.walk(f.node) if isinstance(n, ast.Assign) and isinstance(n.value, ast.Subscript) and _is_self_attr(n.value.value, "cache") for t in n.targets if isinstance(t, ast.Name)}
+        stores = [a for a in ast.walk(f.node) if isinstance(a, ast.Assign) and any(isinstance(t, ast.Attribute) and isinstance(t.value, ast.Name) and t.value.id in cached_names for t in a.targets)]
+        if not stores:
+            res.ok("C14.R2b", f"{rel}:{f.node.lineno} CachingLoaderMixin.{fname}", "the cached template is not modified on a hit", "no attribute store")
+        for a in stores:
+            attr = next(t.attr for t in a.targets if isinstance(t, ast.Attribute))
+            res.fail("C14.R2b", file=rel, line=a.lineno, qualname=f"CachingLoaderMixin.{fname}", construct=f"store cached_template.{attr}", message=f"CachingLoaderMixin.{fname} assigns `{attr}` on the cached Template, which every earlier caller still holds: a template obtained with one caller's globals renders with the globals of whoever fetched (or included) it last", what=f"`{norm(a, 60)}` does not modify the shared cached object")
+
     # freshness of file-backed templates: equality of the recorded and the current mtime
     n_up = 0
     for cinfo in prog.subclasses("liquid2.loader.BaseLoader"):
@@ -175,6 +205,7 @@ def run(prog: Program, res: Result) -> None:
 
     # ------------------------------------------------------------------ R2 / R3 on the CFG of _check_cache*
     res.rule("C14.R2", "every path of _check_cache* that returns the cached object first rebinds its global_data from the caller's globals, unconditionally")
+    res.rule("C14.R5", "a cached template is a hit only for the Environment it was parsed for (the hit return lies on the false edge of a test containing `<cached>.env is not env`)")
     res.rule("C14.R3", "a cached object is returned only after the staleness test (auto_reload and not is_up_to_date) came out false; a reloaded template is stored before it is returned")
     for fname in ("_check_cache", "_check_cache_async"):
         f = mixin.methods[fname]
@@ -220,7 +251,12 @@ def run(prog: Program, res: Result) -> None:
             ok3 = False
             for t in tests:
                 nd = t.node
-                shape_ok = isinstance(nd, ast.BoolOp) and isinstance(nd.op, ast.And) and len(nd.values) == 2 and _is_self_attr(nd.values[0], "auto_reload") and isinstance(nd.values[1], ast.UnaryOp) and isinstance(nd.values[1].op, ast.Not)
+
+                def stale_shape(x: ast.AST) -> bool:
+                    return isinstance(x, ast.BoolOp) and isinstance(x.op, ast.And) and len(x.values) == 2 and _is_self_attr(x.values[0], "auto_reload") and isinstance(x.values[1], ast.UnaryOp) and isinstance(x.values[1].op, ast.Not)
+
+                # the staleness condition itself, or a disjunction that contains it (the false edge then still implies it is false)
+                shape_ok = stale_shape(nd) or (isinstance(nd, ast.BoolOp) and isinstance(nd.op, ast.Or) and any(stale_shape(v) for v in nd.values))
                 dominated = r.id not in cfg.reachable(cfg.entry, avoid=lambda x, t=t: x is t)
                 via_true = any(lab == "true" and (m is r or r.id in cfg.reachable(m)) for m, lab in t.succ)
                 if shape_ok and dominated and not via_true:
@@ -229,6 +265,22 @@ def run(prog: Program, res: Result) -> None:
                 res.ok("C14.R3", site, what3, "test `self.auto_reload and not <cached>.is_up_to_date*()` dominates the hit; hit only on its false edge")
             else:
                 res.fail("C14.R3", file=rel, line=r.line, qualname=f"CachingLoaderMixin.{fname}", construct=f"return {cached} not guarded by the staleness test", message="a cached template can be returned without (or in spite of) the auto_reload/is_up_to_date test", what=what3)
+            # R5: a template parsed for another Environment is not a hit
+            what5 = f"`return {cached}` only when the cached template is bound to the requesting environment"
+
+            def env_guard(test: ast.AST) -> bool | None:
+                disj = test.values if isinstance(test, ast.BoolOp) and isinstance(test.op, ast.Or) else [test]
+                for d in disj:
+                    if norm(d) in (f"{cached}.env is not env", f"{cached}.env != env", f"env is not {cached}.env"):
+                        return True  # bad (other environment) on the true edge
+                if norm(test) in (f"{cached}.env is env", f"{cached}.env == env"):
+                    return False
+                return None
+
+            if guarded_by_test(cfg, r, env_guard) is not None:
+                res.ok("C14.R5", site, what5, f"hit only on the false edge of a test containing `{cached}.env is not env`")
+            else:
+                res.fail("C14.R5", file=rel, line=r.line, qualname=f"CachingLoaderMixin.{fname}", construct=f"return {cached} without comparing its environment", message="the cache key does not include the Environment and a hit is returned without comparing the cached template's environment: with a loader shared by two environments, one gets templates parsed with the other's filters, tags, undefined type and auto_escape setting", what=what5)
         # reload paths store before returning
         loads = [n for n in cfg.nodes if n.kind == "stmt" and n.node is not None and any(isinstance(c, ast.Call) and isinstance(c.func, ast.Name) and c.func.id == "load_func" for c in ast.walk(n.node))]
         res.floor("C14.R3", f"load_func() calls in {fname}", len(loads), 2)
@@ -264,7 +316,6 @@ def run(prog: Program, res: Result) -> None:
     tcfg = CFG(tm.node)
     what = "Template.is_up_to_date returns the uptodate() result only after checking it is a bool; otherwise stale"
     rets = [n for n in tcfg.nodes if n.kind == "stmt" and isinstance(n.node, ast.Return) and isinstance(n.node.value, ast.Name)]
-    from sa.util import guarded_by_test
 
     ok = bool(rets)
     for r in rets:
